@@ -104,3 +104,39 @@ theorem b64enc_safe : ∀ (bs : B), ∀ x ∈ b64enc bs, x < 128 ∧ 32 < x
     · exact b64enc_safe rest x hx
 
 end Metadata
+
+namespace Metadata
+
+theorem asMetadata_cons_same (k ev dv : B) (hs : Headers) (rest : List B) (hl : lower k = k)
+    (hd : if isBin k = true then b64dec ev = some dv else ev = dv)
+    (h : asMetadata hs = some [(k, rest)]) : asMetadata ((k, ev) :: hs) = some [(k, dv :: rest)] := by
+  simp only [asMetadata, h, hl]
+  cases hb : isBin k with
+  | false => simp [hb] at hd; simp [hd, asMetadata.addValFront]
+  | true => simp [hb] at hd; simp [hd, asMetadata.addValFront]
+
+theorem asMetadata_single (k ev dv : B) (hl : lower k = k)
+    (hd : if isBin k = true then b64dec ev = some dv else ev = dv) : asMetadata [(k, ev)] = some [(k, [dv])] := by
+  simp only [asMetadata, hl]
+  cases hb : isBin k with
+  | false => simp [hb] at hd; simp [hd, asMetadata.addValFront]
+  | true => simp [hb] at hd; simp [hd, asMetadata.addValFront]
+
+/-- one key, any number of values: `asMetadata (toHeaders [(k, vs)])` gives back exactly `[(k, vs)]` -/
+theorem asMetadata_values (k : B) (vs : List B) (hne : vs ≠ []) (hl : lower k = k)
+    (hvs : isBin k = true → ∀ v ∈ vs, ∀ x ∈ v, x < 256) :
+    asMetadata (vs.map fun v => (k, if isBin k then b64enc v else v)) = some [(k, vs)] := by
+  induction vs with
+  | nil => simp at hne
+  | cons v rest ih =>
+    have hdv : if isBin k = true then b64dec (if isBin k then b64enc v else v) = some v else (if isBin k then b64enc v else v) = v := by
+      cases hb : isBin k with
+      | false => simp
+      | true => simpa using b64_roundtrip v (hvs hb v (by simp))
+    cases rest with
+    | nil => exact asMetadata_single k _ v hl hdv
+    | cons v2 rest2 =>
+      have ih' := ih (by simp) (fun hb w hw => hvs hb w (by simp [hw]))
+      exact asMetadata_cons_same k _ v _ (v2 :: rest2) hl hdv ih'
+
+end Metadata
